@@ -123,3 +123,17 @@ INSTANCES.update({
     "par4": (dict(threads=[1, 2], born=[1, 2], K=8, menu=["root", "child", "drop", "exit"], MaxOps=4, MaxSpans=2, MaxCycles=2, trackcut=True),
              "terminal", {}),
 })
+
+LIT_OVERFLOW_CANCEL = dict(   # cancel and finish parked in the overflow list, replayed by a later call (D2)
+    threads=[1], born=[1], K=2, MaxCycles=3, cancelable=True,
+    prog={1: [S("root", tr=1, smp=True), S("child", ps=[101]), S("drop", h=102), S("cancel", h=101), S("drop", h=101),
+              S("root", tr=2, smp=True), S("drop", h=103), S("exit")]})
+LIT_OVERFLOW_FINISH = dict(   # two roots finish while the queue is full; recovery interleaved with cycles
+    threads=[1], born=[1], K=2, MaxCycles=3,
+    prog={1: [S("root", tr=1, smp=True), S("root", tr=2, smp=True), S("sevent", h=101), S("drop", h=101), S("drop", h=102),
+              S("root", tr=1, smp=True), S("sevent", h=103), S("drop", h=103), S("exit")]})
+INSTANCES.update({
+    "lit_overflow_cancel": (LIT_OVERFLOW_CANCEL, "edge", {}),
+    "lit_overflow_finish": (LIT_OVERFLOW_FINISH, "edge", {}),
+    "lit_overflow_finish_c": (with_(LIT_OVERFLOW_FINISH, cancelable=True), "edge", {}),
+})
